@@ -31,6 +31,8 @@ CONFIGS = {
     "ip_2m": {"ip": {"EVENT": "2/m"}},
     # a global window longer than every per-address window (what cleanup() may forget is bounded by the longest interval of ANY scope)
     "global_2m_ip_5s": {"global": {"EVENT": "2/m"}, "ip": {"EVENT": "5/s"}},
+    # the longer window is the stricter one (n does not grow with the interval)
+    "ip_3s_2m": {"ip": {"EVENT": "3/s,2/m"}},
     # two rules that name the same interval (both apply), and the other documented spellings of the units
     "ip_dup_interval": {"ip": {"EVENT": "1/s,3/sec"}},
     "ip_dup_interval_rev": {"ip": {"EVENT": "3/second,2/S"}},
@@ -90,7 +92,7 @@ def run_web(case):
     viol = []
     n = 0
     evs = [make_event("A", 1, 700 + i, [], "rl %d" % i) for i in range(6)]
-    alpha = ["EVENT", "REQ", "CLOSE", "WAIT"]
+    alpha = ["EVENT", "REQ", "CLOSE", "WAIT", "RECONNECT"]  # RECONNECT: the connection ends and the same address connects again: limits are per address
     for seqn in itertools.product(alpha, repeat=depth):
         w = World("kv", rate_limits=WEB_RULES, storage_options={"stats_interval": 1e15}, message_timeout=1e300)
         try:
@@ -102,6 +104,13 @@ def run_web(case):
                 h = ",".join(seqn[: j + 1])
                 if cmd == "WAIT":
                     w.loop.advance(1.0)
+                    continue
+                if cmd == "RECONNECT":
+                    c.drop()
+                    w.run(1e6)
+                    w.conns.pop("c", None)
+                    c = w.connect("c", "1.1.1.1")
+                    w.run(1e6)
                     continue
                 now = w.loop.time()
                 n0 = len(c.transcript)
